@@ -92,7 +92,7 @@ def run(ctx, prop):
         'the upload configuration is given to the uploader directly (no config download); mode is on; every count file holds one approved counter',
         'a kill is "never scheduled again"; the server is owned by the harness and answers what the schedule says; a reply that is lost is modelled as no answer',
     ]
-    ctx.inject('internal/upload')
+    ctx.inject('internal/upload', also=('c08_verif_test.go',))
     ctx.instrument('-files', 'internal/upload')
     small, big = families()
     fams = small + (big if ctx.thorough() else [])
